@@ -20,6 +20,7 @@ import M4riProofs.GenTie
 import M4riProofs.GenTieSlice
 import M4riProofs.GenTieRec
 import M4riProofs.GenTiePleFinal
+import M4riProofs.GenTieStrassen
 namespace M4ri.Props.C12
 open M4ri M4ri.BMat
 
@@ -142,5 +143,11 @@ end cfg2
     L compression) is generated by vlib/ctrans.py on every check; with the recursive calls instantiated by the model at `fuel` it returns
     exactly what `pleRec (fuel + 1)` computes: rank, storage, P, Q (GenTiePle.lean; call contracts derived from `pleRec_spec`) -/
 #check @M4ri.GenTiePle.pleRecStep_pleRec_full
+
+
+/-! ### tie to the C text: the COMPLETE C function `_mzd_mul_even` (early return, base case incl. the windowed-operand copies, split, 12 quadrant
+    windows, 2 temporaries, the 22 steps of the Bodrato sequence, the three remainder strips) is generated by vlib/ctrans.py on every
+    check; with its callees instantiated by the model it equals `mulEven (fuel + 1)`, hence the product (GenTieStrassen.lean) -/
+#check @M4ri.GenTieStrassen.strassenMulEven_step
 
 end M4ri.Props.C12
